@@ -126,6 +126,15 @@ def run(m, rep, tier):
     else:
         check_find_result(m, f, w6)
 
+    # ---- W10: red-black erase leaves the node where the repair stopped black ---------------------
+    w10 = rep.rule('W10', 'rbtree erase: when a black node was removed, the node at which the repair loop stops is coloured black on every path '
+                   '(a red root would make the next insert dereference a missing grandparent)', floor=1)
+    check_rb_erase_final_black(m, w10, enums)
+
+    # ---- W11: red-black insert leaves the root black ----------------------------------------------
+    w11 = rep.rule('W11', 'rbtree insert: on every path the root is coloured black after the last recolouring step', floor=1)
+    check_rb_insert_root_black(m, w11, enums)
+
     # ---- W9: (function pointer, context) pairing ---------------------------------------------
     from .util import check_callback_context
     _cb = rep.rule('W9', 'every call through a caller-supplied function pointer passes the context supplied with it', floor=1)
@@ -136,6 +145,186 @@ def run(m, rep, tier):
     _sw = rep.rule('W8', 'swap exchanges every member of the two trees (root, size, offset, comparison function and its context)', floor=3)
     for _n in ('cstl_bintree_swap', 'cstl_rbtree_swap', 'cstl_heap_swap'):
         check_swap_complete(m, _n, _sw)
+
+
+def check_rb_insert_root_black(m, rule, enums):
+    black = enums.get('CSTL_RBTREE_COLOR_B')
+    f = m.pfn('cstl_rbtree_insert')
+    mod = m.plain.get('rbtree')
+    if f is None or black is None or mod is None:
+        rule.undecided('cstl_rbtree_insert', 'function or colour enumerators not found')
+        return
+    steps = [c for c in f.all_insts() if c.op == 'call' and c.callee and mod.fn(c.callee) is not None and not mod.fn(c.callee).decl
+             and mod.fn(c.callee).linkage == 'internal']
+
+    def coloured(st):
+        a = resolve_addr(f, st.o[1])
+        if a.fsteps[-1:] != (('cstl_rbtree_node', 'c'),):
+            return None
+        ri = f.get(a.root) if isinstance(a.root, str) else None
+        if ri is not None and ri.op == 'inttoptr':
+            return _ptr_base(f, ri)
+        return strip_bitcasts(f, a.root) if isinstance(a.root, str) else None
+
+    def is_root(ps, v):
+        v = ps.lookup(_k(v)) if isinstance(v, str) else v
+        vi = f.get(v) if isinstance(v, str) else None
+        return vi is not None and vi.op == 'load' and resolve_addr(f, vi.o[0]).fsteps[-1:] == (('cstl_bintree', 'root'),)
+
+    def transfer(ins, st, ps):
+        if ins.op == 'call' and ins.x.get('noreturn'):
+            return None
+        if ins in steps or (ins.op == 'call' and ins.callee in ('cstl_bintree_insert',)):
+            return 'dirty'
+        if ins.op == 'store':
+            nd = coloured(ins)
+            if nd is not None:
+                if const_int(ins.o[0]) == black and is_root(ps, nd):
+                    return 'rootblack'
+                if const_int(ins.o[0]) != black:
+                    return 'dirty'
+        return st
+    try:
+        res = typestate.run(f, 'dirty', transfer, limit=60000)
+    except typestate.Limit as e:
+        rule.undecided(f.name, str(e), floc(m, f))
+        return
+    def known_black_root(ps):
+        for (op, a, b) in ps.known:
+            ai = f.get(a) if isinstance(a, str) else None
+            if ai is None or ai.op != 'load' or not ((op == 'eq' and const_int(b) == black) or (op == 'ne' and const_int(b) is not None and const_int(b) != black)):
+                continue
+            aa = resolve_addr(f, ai.o[0])
+            ri = f.get(aa.root) if isinstance(aa.root, str) else None
+            if aa.fsteps[-1:] == (('cstl_rbtree_node', 'c'),) and ri is not None and ri.op == 'inttoptr' and is_root(ps, _ptr_base(f, ri)):
+                return True
+        return False
+    bad = [r for r, ps in res.exits if ps.auto != 'rootblack' and not known_black_root(ps)]
+    if not res.exits:
+        rule.undecided(f.name, 'no return reached', floc(m, f))
+    elif bad:
+        rule.violation(f.name, 'a path to the return at %s does not end by colouring the root black after the last recolouring / rotation step: the '
+                       'root can be left red (the repair assumes a red node always has a grandparent)' % bad[0].loc(), floc(m, f), {})
+    else:
+        rule.ok(f.name, 'root := black after the last repair step on all %d exit state(s)' % len(res.exits), floc(m, f))
+
+
+def check_rb_erase_final_black(m, rule, enums):
+    black = enums.get('CSTL_RBTREE_COLOR_B')
+    mod = m.plain.get('rbtree')
+    f = None
+    fixers = set()
+    if mod is None or black is None:
+        rule.undecided('__cstl_rbtree_erase', 'rbtree unit or colour enumerators not found')
+        return
+    # the erase repair may live in the unlinking routine itself or in a private function split off from it: every
+    # function of the unit with the repair shape, except the insert side (W11)
+    n = 0
+    for g in mod.defined():
+        if any(x.op == 'call' and x.callee in ('cstl_bintree_insert',) for x in g.all_insts()):
+            continue
+        if _rb_repair_shape(mod, g):
+            n += 1
+            _check_rb_repair(m, mod, g, rule, black)
+    if n == 0:
+        rule.undecided('__cstl_rbtree_erase', 'no function with the repair shape  x = step(.., x, ..)  found in rbtree.c')
+
+
+def _rb_repair_shape(mod, f):
+    fix_calls, xs = _rb_cursor(mod, f)
+    return len(xs) == 1 and bool(fix_calls)
+
+
+def _rb_cursor(mod, f):
+    # the repair step, by shape: x = step(..., x, ...) -- a call to a private function of this unit whose result flows back
+    # into the very cursor it was handed (whatever else it takes: child selectors, a side flag)
+    fix_calls, xs = [], []
+    for c in f.all_insts():
+        if c.op != 'call' or not c.callee or mod.fn(c.callee) is None or mod.fn(c.callee).decl or c.callee == '__cstl_bintree_erase':
+            continue
+        for p in f.all_insts():
+            if p.op != 'phi' or p.ref not in [strip_bitcasts(f, o) for o in c.o if isinstance(o, str)]:
+                continue
+            seen, stack, back = set(), [c.ref], False
+            while stack:
+                r0 = stack.pop()
+                if r0 in seen:
+                    continue
+                seen.add(r0)
+                for u in f.users(r0):
+                    if u is p:
+                        back = True
+                    elif u.op in ('phi', 'bitcast', 'select'):
+                        stack.append(u.ref)
+            if back:
+                fix_calls.append(c)
+                if p not in xs:
+                    xs.append(p)
+    return fix_calls, xs
+
+
+def _check_rb_repair(m, mod, f, rule, black):
+    fix_calls, xs = _rb_cursor(mod, f)
+    X = xs[0]
+    first = [i for i in X.block.insts if i.op != 'phi'][0]
+
+    def colour_node(st):
+        a = resolve_addr(f, st.o[1])
+        if a.fsteps[-1:] != (('cstl_rbtree_node', 'c'),):
+            return None
+        ri = f.get(a.root) if isinstance(a.root, str) else None
+        if ri is not None and ri.op == 'inttoptr':
+            return _ptr_base(f, ri)
+        return strip_bitcasts(f, a.root) if isinstance(a.root, str) else None
+    bad = []
+
+    def transfer(ins, st, ps):
+        entered, blk = st
+        if ins.op == 'call' and ins.x.get('noreturn'):
+            return None
+        if ins is first:
+            entered = True
+        if ins in fix_calls:
+            return (entered, None)
+        if ins.op == 'store':
+            nd = colour_node(ins)
+            if nd is not None:
+                if const_int(ins.o[0]) == black:
+                    return (entered, ps.lookup(_k(nd)))
+                if blk is not None and ps.lookup(_k(nd)) == blk:
+                    return (entered, None)
+        return (entered, blk)
+    try:
+        res = typestate.run(f, (False, None), transfer, limit=60000)
+    except typestate.Limit as e:
+        rule.undecided(f.name, str(e), floc(m, f))
+        return
+    for r, ps in res.exits:
+        entered, blk = ps.auto
+        if not entered:
+            continue
+        x_now = ps.lookup(X.ref)
+        if blk is None or blk != x_now:
+            # or known black already
+            known_black = False
+            for (op, a, b) in ps.known:
+                ai = f.get(a) if isinstance(a, str) else None
+                if ((op == 'eq' and const_int(b) == black) or (op == 'ne' and const_int(b) is not None and const_int(b) != black)) \
+                        and ai is not None and ai.op == 'load':
+                    aa = resolve_addr(f, ai.o[0])
+                    ri = f.get(aa.root) if isinstance(aa.root, str) else None
+                    if aa.fsteps[-1:] == (('cstl_rbtree_node', 'c'),) and ri is not None and ri.op == 'inttoptr' and ps.lookup(_k(_ptr_base(f, ri))) == x_now:
+                        known_black = True
+            if not known_black:
+                bad.append('a path to the return at %s leaves the repair with its cursor node neither coloured black nor known to be black (e.g. the cursor '
+                           'is already the root, so the loop body never runs): the root can stay red, and the next insert under it dereferences a '
+                           'grandparent that does not exist' % r.loc())
+    if not res.exits:
+        rule.undecided(f.name, 'no return reached', floc(m, f))
+    elif bad:
+        rule.violation(f.name, '; '.join(sorted(set(bad))[:2]), floc(m, f), {})
+    else:
+        rule.ok(f.name, 'on all %d exit state(s) through the repair region the cursor node ends black' % len([1 for _, ps in res.exits if ps.auto[0]]), floc(m, f))
 
 
 def check_binding(m, w, enums, rule):
@@ -260,6 +449,48 @@ def check_descent(m, f, rule):
         return
     for c in cmps:
         _check_descent_site(m, f, c, rule, len(cmps))
+    if f.name.endswith('_insert'):
+        _check_slot_choices(m, f, cmps, rule)
+
+
+def _check_slot_choices(m, f, cmps, rule):
+    """every child slot insert may link into or descend through (&X->l / &X->r used as a slot value, not merely read) is
+    chosen under the sign of a comparison of the new element: left under a negative result, right under a non-negative one"""
+    from ..facts import FactCache
+    fc = FactCache(f)
+    refs = {c.ref for c in cmps}
+    bad = []
+    n = 0
+    for g in f.all_insts():
+        if g.op != 'getelementptr':
+            continue
+        aa = resolve_addr(f, g.ref)
+        if not aa.fsteps[-1:] or aa.fsteps[-1][0] != NODE or aa.fsteps[-1][1] not in ('l', 'r'):
+            continue
+        uses = f.users(g.ref)
+        as_slot = [u for u in uses if u.op in ('phi', 'select') or (u.op == 'store' and u.o[1] == g.ref and
+                                                                      (listrules.handed_node(f, strip_bitcasts(f, u.o[0])) == '$1' or listrules.derived_from(f, strip_bitcasts(f, u.o[0]), '$1')))]
+        if not as_slot:
+            continue
+        n += 1
+        neg = nonneg = False
+        for (op, x, y) in fc.block_facts(g.block):
+            if op == 'slt' and x in refs and const_int(y) == 0:
+                neg = True
+            if (op == 'sle' and const_int(x) == 0 and y in refs) or (op == 'slt' and const_int(x) == 0 and y in refs):
+                nonneg = True
+        side = aa.fsteps[-1][1]
+        if (side == 'l' and not neg) or (side == 'r' and not nonneg):
+            bad.append('the %s child slot taken at %s is not chosen by comparing the new element with that node (%s): an element can be linked on the '
+                       'wrong side, where a search for it never looks' % ('left' if side == 'l' else 'right', g.loc(),
+                                                                            'no comparison result decides this branch' if not (neg or nonneg) else 'the sign does not match the side'))
+    site = f.name + ':slot-choice'
+    if bad:
+        rule.violation(site, '; '.join(sorted(set(bad))[:3]), floc(m, f), {})
+    elif n:
+        rule.ok(site, '%d child slot choice(s), each under the matching comparison sign' % n, floc(m, f))
+    else:
+        rule.ok(site, 'NOT DECIDED: no child slot address used as a slot value found', floc(m, f))
 
 
 def _check_descent_site(m, f, c, rule, nsites):
